@@ -24,6 +24,7 @@ def correspond(ctx, C):
     st = S.Stats()
     viol = []
     checked_schema = 0
+    carried_checked = 0
     for r in rows:
         case, go = r["case"], r["go"]
         st.add(C, r)
@@ -39,6 +40,12 @@ def correspond(ctx, C):
                 checked_schema += 1
                 if not obs.get("schemaSame", True):
                     viol.append((case, {"what": "a reference-free schema was modified by validation (%s)" % name}))
+        ca = go.get("carried")
+        if isinstance(ca, dict) and "panic" not in ca:
+            carried_checked += 1
+            if not ca.get("carriedSame", True):
+                viol.append((case, {"what": "an object instance that holds Go struct values was modified by validation: a struct (or pointer) "
+                                            "member of the caller's map was replaced"}))
     # documents: bytes never change; the parsed specification does not change for accepted, non-circular documents
     docs = raw_checked = spec_checked = 0
     if not rp:
@@ -61,4 +68,5 @@ def correspond(ctx, C):
     cov["document_bytes_compared"] = raw_checked
     cov["accepted_document_specs_compared"] = spec_checked
     cov["schema_snapshots_compared"] = checked_schema
+    cov["instances_carrying_go_structs_compared"] = carried_checked
     return {"coverage": cov, "violations": viol[:3], "known": []}
